@@ -63,11 +63,51 @@ def sx_tuple_constraints(X, row, got, Vn):
                    sx.eq(b1, sx_rand(X, 5, P1, Vn)))
 
 
-def check_tuples(ctx, ex, t2, p1t, tag, replay, prefix="c15", rows=None):
+def refine_tuple_bv(mir, kp, timeout_s):
+    """Bit-precise version of the tuple query for one row: concrete V tables (select), real xor, BV encoding."""
+    p_ = rfc.Params(kp)
+    ex2 = Exec(mir)        # no symbolic tables: look-ups become selects over the constant arrays
+    X = sx.var("X", 32)
+    outs = ex2.call("intermediate_tuple", [Int(X, "u32"), Int(sx.const(p_.W), "u32"), Int(sx.const(p_.J), "u32"), Int(sx.const(p_.P1), "u32")])
+    viol = []
+
+    def sel_rand(y, i, m):
+        xs = [sx.rem(sx.add(sx.div(y, sx.const(1 << (8 * k))), sx.const(i)), sx.const(256)) for k in range(4)]
+        t = sx.select_const_array("V0", rfc.V[0], xs[0], 32)
+        for k in (1, 2, 3):
+            t = sx.bitop("xor", t, sx.select_const_array("V%d" % k, rfc.V[k], xs[k], 32), 32)
+        return sx.rem(t, sx.const(m))
+    A = 53591 + p_.J * 997
+    A += 1 if A % 2 == 0 else 0
+    y = sx.rem(sx.add(sx.const(10267 * (p_.J + 1)), sx.mul(X, sx.const(A))), sx.const(1 << 32))
+    v = sel_rand(y, 0, 1 << 20)
+    for o in [o for o in outs if o.kind == "ret"]:
+        d, a, b, d1, a1, b1 = [f.t for f in o.value.fields]
+        deg_ok = sx.or_(*[sx.and_(sx.le(sx.const(rfc.DEG_F[k - 1]), v), sx.lt(v, sx.const(rfc.DEG_F[k])), sx.eq(d, sx.const(min(k, p_.W - 2)))) for k in range(1, 31)])
+        spec = sx.and_(deg_ok, sx.eq(a, sx.add(sx.const(1), sel_rand(y, 1, p_.W - 1))), sx.eq(b, sel_rand(y, 2, p_.W)),
+                       sx.ite(sx.lt(d, sx.const(4)), sx.eq(d1, sx.add(sx.const(2), sel_rand(X, 3, 2))), sx.eq(d1, sx.const(2))),
+                       sx.eq(a1, sx.add(sx.const(1), sel_rand(X, 4, p_.P1 - 1))), sx.eq(b1, sel_rand(X, 5, p_.P1)))
+        viol.append(sx.and_(o.cond, sx.not_(spec)))
+    asserts = [sx.lt(X, sx.const((1 << 24) + kp)), sx.or_(*viol)]
+    bits, _ = sx.max_bits(asserts)
+    try:
+        script = sx.BVPrinter(bits).script(asserts, ["X"])
+    except Exception as e:
+        return None, "error:%s" % str(e)[:100]
+    v_, rs = sx.portfolio(script, max(timeout_s, 300), ("z3",), grace_s=0)
+    if v_ == "sat":
+        return rs[0].model.get("X"), "sat"
+    return None, v_
+
+
+def check_tuples(ctx, ex, t2, p1t, tag, replay, prefix="c15", rows=None, native=None):
     """Per Table-2 row: Tuple[] never panics, lies in range and equals the RFC transcription, X symbolic."""
     rep = ctx.report
     thorough = ctx.tier == "thorough"
     Vn = ("V0", "V1", "V2", "V3")
+    if native is None:
+        from vlib.native import Native
+        native = Native(ctx.scratch.path)
     if True:
         # --- C. Tuple[] per row
         rows = list(range(477)) if rows is None else rows
@@ -106,7 +146,9 @@ def check_tuples(ctx, ex, t2, p1t, tag, replay, prefix="c15", rows=None):
             results = list(pool.map(work, jobs))
         n_q = 0
         panic_unsat = tuple_unsat = 0
-        for (row, kp, q1, q2, msgs), r1, r2 in results:
+        replays_left = {"no-panic": 3, "ranges+rfc-equality": 3}
+        skipped = {"no-panic": [], "ranges+rfc-equality": []}
+        for (row, kp, q1, q2, msgs), r1, r2 in sorted(results, key=lambda x: x[0][1]):
             for what, r in (("no-panic", r1), ("ranges+rfc-equality", r2)):
                 if r is None:
                     panic_unsat += 1      # no panic path at all survived interval simplification
@@ -123,6 +165,10 @@ def check_tuples(ctx, ex, t2, p1t, tag, replay, prefix="c15", rows=None):
                     rep.inconclusive(name, "%s %s" % (r.status, r.raw[-200:]), r.time_s, "smt")
                     continue
                 x = r.model.get("X")
+                if replays_left[what] <= 0:
+                    skipped[what].append((kp, x))       # same defect class on a larger block: not replayed (native runs are slow)
+                    continue
+                replays_left[what] -= 1
                 if what == "no-panic":
                     if x >= kp:
                         nat = replay.both(["repair", kp, 1, x - kp, 1])
@@ -136,12 +182,38 @@ def check_tuples(ctx, ex, t2, p1t, tag, replay, prefix="c15", rows=None):
                     else:
                         rep.inconclusive(name, "model X=%d does not panic natively: %s" % (x, nat), r.time_s, "smt")
                 else:
-                    # independent concrete evaluation of the transcription vs. the real packets
-                    rep.violated(name, "tuple-mismatch K'=%d" % kp,
-                                 "Tuple[K'=%d, X=%d] computed by the current source differs from the RFC transcription or leaves its range" % (kp, x),
-                                 {"kind": "tuple-mismatch", "K": kp, "X": x, "rfc_tuple": list(rfc.tuple_(rfc.Params(kp), x)),
-                                  "note": "evaluate base::intermediate_tuple on these arguments"}, r.time_s, "smt")
+                    # the abstract model leaves V0..V3 and xor uninterpreted: confirm natively, otherwise refine bit-precisely
+                    p_ = rfc.Params(kp)
+
+                    def native_differs(xv):
+                        out = native.both(["tuple", xv, p_.W, p_.J, p_.P1])
+                        want = list(rfc.tuple_(p_, xv))
+                        bad_ = [k for k, v in out.items() if v.split()[1:] != [str(t) for t in want]]
+                        return bad_, out, want
+                    bad_, out, want = native_differs(x)
+                    how = "abstract model"
+                    if not bad_:
+                        xr, st = refine_tuple_bv(ex.mir, kp, tmo)
+                        how = "bit-precise refinement (concrete V0..V3, real xor)"
+                        if st == "unsat":
+                            rep.held(name, "abstract query had a spurious model; proved bit-precisely with the concrete tables", r.time_s, "smt/refined-bv")
+                            tuple_unsat += 1
+                            continue
+                        if st != "sat":
+                            rep.inconclusive(name, "abstract model X=%d does not reproduce natively and the bit-precise query gave %s" % (x, st), r.time_s, "smt")
+                            continue
+                        x = xr
+                        bad_, out, want = native_differs(x)
+                    if bad_:
+                        rep.violated(name, "tuple-mismatch K'=%d" % kp,
+                                     "intermediate_tuple(X=%d) of a K'=%d block is %s natively, RFC Tuple[K',X] is %s (found by %s)" % (x, kp, out[bad_[0]], want, how),
+                                     {"kind": "tuple-mismatch", "K": kp, "X": x, "W": p_.W, "J": p_.J, "P1": p_.P1, "rfc_tuple": want, "native": out}, r.time_s, "smt")
+                    else:
+                        rep.inconclusive(name, "bit-precise model X=%d does not reproduce natively: %s vs %s" % (x, out, want), r.time_s, "smt")
         dt = time.time() - t0
+        for what, lst in skipped.items():
+            if lst:
+                rep.coverage.setdefault("further_rows_with_solver_models_not_replayed", {})["%s[%s]" % (what, tag)] = lst[:40]
         rep.held("%s/tuple/no-panic/all-%d-rows[%s]" % (prefix, nrows, tag), "%d rows unsat" % panic_unsat, dt / 2, "smt/z3", rows_unsat=panic_unsat) if panic_unsat == nrows else None
         rep.held("%s/tuple/ranges+rfc-equality/all-%d-rows[%s]" % (prefix, nrows, tag), "%d rows unsat" % tuple_unsat, dt / 2, "smt/z3", rows_unsat=tuple_unsat) if tuple_unsat == nrows else None
         rep.coverage.setdefault("smt_queries", 0)
